@@ -154,6 +154,59 @@ theorem normSq_single_entry (n : NormKind) (x : Rat) : normSq n [[x]] = x * x :=
       rw [maxR_eq_max]; exact max_eq_right (absR_nonneg x)
     simp [normSq, maxAbs, flat, h, absR_mul_self]
 
+/-! ### the three norms are ordered: max-abs ≤ 2-norm ≤ L1 -/
+
+theorem dot_self_le_sum_absR_sq (v : Vec) : dot v v ≤ (v.map absR).sum * (v.map absR).sum := by
+  induction v with
+  | nil => simp
+  | cons x xs ih =>
+    simp only [dot_cons, List.map_cons, List.sum_cons]
+    have h1 := absR_nonneg x
+    have h2 := sum_absR_nonneg xs
+    have h3 := absR_mul_self x
+    nlinarith [mul_nonneg h1 h2]
+
+theorem mul_self_le_dot_self_of_mem (v : Vec) (x : Rat) (hx : x ∈ v) : x * x ≤ dot v v := by
+  induction v with
+  | nil => simp at hx
+  | cons y ys ih =>
+    simp only [dot_cons]
+    rcases List.mem_cons.mp hx with rfl | h
+    · linarith [dot_self_nonneg ys]
+    · linarith [ih h, mul_self_nonneg y]
+
+theorem foldl_maxR_eq_acc_or_mem (l : Vec) (acc : Rat) : l.foldl maxR acc = acc ∨ l.foldl maxR acc ∈ l := by
+  induction l generalizing acc with
+  | nil => simp
+  | cons y ys ih =>
+    simp only [List.foldl_cons, List.mem_cons]
+    rcases ih (maxR acc y) with h | h
+    · rw [h]
+      unfold maxR
+      split
+      · right; left; rfl
+      · left; rfl
+    · right; right; exact h
+
+theorem maxAbs_sq_le_frob (B : Mat) : maxAbs B * maxAbs B ≤ frob B B := by
+  rw [frob_eq_dot_flat (sameShape_refl B)]
+  unfold maxAbs
+  rcases foldl_maxR_eq_acc_or_mem ((flat B).map absR) 0 with h | h
+  · rw [h]; simpa using dot_self_nonneg (flat B)
+  · obtain ⟨x, hx, hxe⟩ := List.mem_map.mp h
+    rw [← hxe, absR_mul_self]
+    exact mul_self_le_dot_self_of_mem _ x hx
+
+theorem frob_le_l1_sq (B : Mat) : frob B B ≤ l1 B * l1 B := by
+  rw [frob_eq_dot_flat (sameShape_refl B)]
+  exact dot_self_le_sum_absR_sq (flat B)
+
+/-- `‖B‖_max² ≤ ‖B‖₂² ≤ ‖B‖₁²`: normalising with the L1 norm UNDER-projects (coefficient too small), with the max-abs norm
+    OVER-projects (coefficient too large) -/
+theorem normSq_order (B : Mat) :
+    normSq .maxAbs B ≤ normSq .frobenius B ∧ normSq .frobenius B ≤ normSq .l1Flat B :=
+  ⟨maxAbs_sq_le_frob B, frob_le_l1_sq B⟩
+
 /-! ### which statement needs which norm -/
 
 /-- EVERY norm kind: the exact orthogonality defect of the update (Frobenius projection line, norm kind `n`):
